@@ -129,7 +129,7 @@ class AbstractAst:
         #TODO How to handle sub-formulas?
         entire_spec = self.modular_spec + self.spec
         
-        if entire_spec[-1] != ';':
+        if not entire_spec.endswith(';'):
             entire_spec += ';'
         
         input_stream = InputStream(entire_spec)
